@@ -86,7 +86,9 @@ func (e *Exec) callRepo(f *ssa.Function, args []Term, x *ssa.Call) val {
 			if cl.kind != "requires" {
 				continue
 			}
-			t := env.tr(cl.expr)
+			// goal mode: a quantified precondition is skolemized with the root's goal constants
+			env.goalSk = e.root().goalSk
+			t := env.trGoal(cl.expr)
 			if env.err != "" {
 				e.unsupported("requires of " + f.Name() + ": " + env.err)
 				return resultVals(res)
